@@ -450,6 +450,11 @@ func run(rc *kernel.RunCtx) {
 	conf := cache.Config{}
 	if tp.Bool(3, 4) {
 		conf.MaxSize = uint(tp.Range(4, 24))
+		if tp.Bool(1, 8) {
+			// Tiny byte limits: the entries that fit are the empty one and
+			// those of a byte or two.
+			conf.MaxSize = uint(tp.Range(1, 3))
+		}
 	}
 	switch tp.Choose(4) {
 	case 1:
